@@ -83,6 +83,8 @@ class CaseResult:
         """returns None or a (kind, signature, detail) triple describing a listed C01 outcome"""
         e = self.exit
         err = e.get("stderr", "")
+        if "bind() failed" in err or "socket() failed" in err:
+            return None      # the sandbox ran out of ports / descriptors: environmental, see env_failure
         m = re.search(r"ERROR: AddressSanitizer: ([\w-]+)", err)
         if m:
             return ("asan", m.group(1) + "@" + first_repo_frame(err), err[:6000])
@@ -102,7 +104,8 @@ class CaseResult:
 
     @property
     def timed_out(self):
-        return self.exit.get("kind") == "timeout"
+        err = self.exit.get("stderr", "")
+        return self.exit.get("kind") == "timeout" or "bind() failed" in err or "socket() failed" in err
 
 
 def first_repo_frame(err):
